@@ -143,13 +143,24 @@ def r3_rel(ck, F, R="C02-R3"):
     for c in cmps:
         op, st, pr, okp = _canon(c, ["key"])
         stored_ok = any(True for _ in st.calls(A("block_entry_at")))
-        ck.ob(R, "scan-break-relation", op == ">" and okp and stored_ok, f"linear scan stops on `stored {op} probe` (strict: an exact match off the table is kept)", le, c["site"])
+        # written as "stop when stored > probe" or as "go on while stored <= probe": the same relation
+        ck.ob(R, "scan-break-relation", op in (">", "<=") and okp and stored_ok, f"linear scan decides on `stored {op} probe` (it stops at the first stored key strictly greater than the probe: an exact match off the table is kept)", le, c["site"])
         ed = bool_edges(le, value_site=c["site"])
         ok = False
         if ed:
             sw, t_t, f_t = ed
-            # true edge leaves the loop without storing; false edge stores current_offset
-            st_sites = [s for s, s_ in le.sites() if s.i is not None and s_["s"] == "assign" and s_["pl"]["p"] and isinstance(s_["pl"]["p"][-1], dict) and s_["pl"]["p"][-1].get("name") == "current_offset"]
+            if op == "<=":
+                t_t, f_t = f_t, t_t      # t_t: the edge taken when stored > probe (stop); f_t: keep going
+            # the stop edge leaves the loop without remembering the offset; the keep edge remembers it — either by
+            # storing current_offset directly or by updating the value that is stored into it after the loop
+            st_sites = []
+            for s, s_ in le.sites():
+                if s.i is not None and s_["s"] == "assign" and s_["pl"]["p"] and isinstance(s_["pl"]["p"][-1], dict) and s_["pl"]["p"][-1].get("name") == "current_offset":
+                    st_sites.append(s)
+                    v = le._expr_of_def((s, "assign", s_["rv"]))
+                    for alt in flat_alts(v):
+                        if alt.k == "agg" and alt.x.get("variant") == "Some" and alt.x.get("site") is not None:
+                            st_sites.append(alt.x["site"])
             keep = [s for s in st_sites if le.dominates(f_t, s.bb)]
             brk = [s for s in st_sites if le.dominates(t_t, s.bb)]
             ok = len(keep) >= 1 and not brk and le.in_loop(c["site"].bb)
